@@ -24,7 +24,11 @@ func c20Functions() map[string]schema.FunctionSignature {
 		return function.Parameter{Name: n, Type: cty.DynamicPseudoType, Description: "param " + n}
 	}
 	v := &function.Parameter{Name: "rest", Type: cty.DynamicPseudoType}
+	// two signatures whose fixed parameters are sub-slices of one table (spare capacity behind the shorter one)
+	table := []function.Parameter{p("t1"), p("t2"), p("t3")}
 	return map[string]schema.FunctionSignature{
+		"s1":     {ReturnType: cty.String, Params: table[:1], VarParam: v},
+		"s3":     {ReturnType: cty.String, Params: table[:3]},
 		"f0":     {ReturnType: cty.String, Description: "f0"},
 		"f1":     {ReturnType: cty.String, Params: []function.Parameter{p("a")}},
 		"f2":     {ReturnType: cty.String, Params: []function.Parameter{p("a"), p("b")}},
@@ -92,7 +96,11 @@ func c20Calls(depth int) []string {
 	}
 	// layout variants of a few calls
 	out = append(out, "f2(\n  1,\n  2\n)", "v1( 1 , 2 , 3 )", "f3(f1(1), f2(1, f1(2)), 3)", "f2(1, f1(\"x\", \"y\"))", "f1(f2(1, 2, 3))", "unk(f2(1, 2))", "f2(unk(1, 2, 3), 2)", "f0(1)", "f1(f0())",
-		"f2(1, )", "f3(1, 2, )", "f2(f2(1, ), 2)", "v1(f2(1, ), 2)", "f3([f2(1, )], 2, 3)", "v2(1, 2, 3, )", "f2(f3(1, 2, ), f1(1, ))", "f2( f1( 1 ) , )")
+		"f2(1, )", "f3(1, 2, )", "f2(f2(1, ), 2)", "v1(f2(1, ), 2)", "f3([f2(1, )], 2, 3)", "v2(1, 2, 3, )", "f2(f3(1, 2, ), f1(1, ))", "f2( f1( 1 ) , )",
+		// signatures sharing a parameter table, one asked after the other
+		"s3(s1(1, 2), 2, 3)", "s3(1, s1(1), 3)", "s1(s3(1, 2, 3), 2)",
+		// CRLF line endings and comments between the arguments
+		"f2(1,\r\n  )", "f2(\r\n  1,\r\n  2\r\n)", "f3(1,\r\n  2,\r\n  )", "f2(1, # c\n  )", "f2(1, /* c */ )", "f3(1, /* a, b */ 2, )", "f2(1, // c, d\n  2)", "f2(f1(1), # c\n  )", "v1(1, 2, /* c */ )")
 	return out
 }
 
@@ -108,6 +116,21 @@ func commasBefore(text string, from, to int) int {
 			} else if ch == '"' {
 				inStr = false
 			}
+			continue
+		}
+		// comments are not arguments
+		if ch == '#' || (ch == '/' && i+1 < len(text) && text[i+1] == '/') {
+			for i < to && i < len(text) && text[i] != '\n' {
+				i++
+			}
+			continue
+		}
+		if ch == '/' && i+1 < len(text) && text[i+1] == '*' {
+			i += 2
+			for i+1 < len(text) && i < to && !(text[i] == '*' && text[i+1] == '/') {
+				i++
+			}
+			i++
 			continue
 		}
 		switch ch {
@@ -171,6 +194,13 @@ func c20Model(body *hclsyntax.Body, text string, pos int, fns map[string]schema.
 			}
 		}
 	}
+	// a cursor strictly inside a comment is not typing any argument: either answer is accepted there
+	toks, _ := hclsyntax.LexConfig([]byte(text), "main.tf", hcl.InitialPos)
+	for _, t := range toks {
+		if t.Type == hclsyntax.TokenComment && t.Range.Start.Byte < pos && pos < t.Range.End.Byte {
+			boundary = true
+		}
+	}
 	if best == nil {
 		return c20Expect{must: !boundary, none: true}
 	}
@@ -191,6 +221,25 @@ func c20Model(body *hclsyntax.Body, text string, pos int, fns map[string]schema.
 		slot = np - 1
 	}
 	return c20Expect{must: !boundary, sigName: best.Name, active: slot, nparams: np}
+}
+
+func paramNames(f schema.FunctionSignature) []string {
+	var out []string
+	for _, p := range f.Params {
+		out = append(out, p.Name)
+	}
+	if f.VarParam != nil {
+		out = append(out, f.VarParam.Name)
+	}
+	return out
+}
+
+func sigParamNames(s *lang.FunctionSignature) []string {
+	var out []string
+	for _, p := range s.Parameters {
+		out = append(out, p.Name)
+	}
+	return out
 }
 
 func c20Exact(c *report.Collector, tier string) {
@@ -248,6 +297,8 @@ func c20Exact(c *report.Collector, tier string) {
 						clause, bad = "signature:not-innermost", fmt.Sprintf("got %q, expected the innermost call %s", sig.Name, exp.sigName)
 					} else if len(sig.Parameters) != exp.nparams {
 						clause, bad = "signature:parameter-list", fmt.Sprintf("%d parameters, expected %d", len(sig.Parameters), exp.nparams)
+					} else if want := paramNames(fns[exp.sigName]); fmt.Sprint(sigParamNames(sig)) != fmt.Sprint(want) {
+						clause, bad = "signature:parameter-names", fmt.Sprintf("%s lists the parameters %v, the function declares %v (fixed parameters followed by the variadic one)", sig.Name, sigParamNames(sig), want)
 					} else if int(sig.ActiveParameter) != exp.active {
 						clause, bad = "signature:active-parameter", fmt.Sprintf("%s: active=%d, expected %d", sig.Name, sig.ActiveParameter, exp.active)
 					}
